@@ -333,6 +333,7 @@ func run(c *rig.Ctx) {
 		}
 		c.Case(rig.Hash(uint64(i), r.U64()))
 	})
+	handlers(c)
 }
 
 func main() {
